@@ -810,6 +810,10 @@ static void worker(int w, int W, uint64_t start)
             vf_gen_run(&g);
         }
     }
+    /* sibling family: every pair (thorough: and triple) of small sibling subtrees, inner names "" and "a" */
+    memset(&g, 0, sizeof g);
+    g.cb = on_doc;
+    vf_sibling_run(&g, vf_g.thorough ? 2 : 1);
     /* C06: navigation DRIVEN BY LOOKUPS ("enter only a container that next or a field lookup has just returned"): the trap-name
      * and boundary-name families with field_with_length over all query names mixed into the navigation operations */
     if (P_C06) {
@@ -822,6 +826,9 @@ static void worker(int w, int W, uint64_t start)
                 else { g.names = names_huge; g.nnames = NHUGE; g.max_obj_depth = 2; g.max_tokens = N_LOOKUP - 1; }
                 vf_gen_run(&g);
             }
+        memset(&g, 0, sizeof g);
+        g.cb = on_doc;
+        vf_sibling_run(&g, 1);
         CUR_OPS = NULL;
     }
 }
